@@ -62,6 +62,16 @@ theorem C03_call_item_is_own (s s' : St) (i : Wid) (hpc : s.mpc = .addAcq i) (hf
   · cases hs; exact ⟨_, rfl, rfl⟩
   · cases hs
 
+/-- … also in the pass the manager makes right after flagging the executor as shutting down -/
+theorem C03_call_item_is_own_after_flag (s s' : St) (i : Wid) (hpc : s.mpc = .addAcqF i) (hf : s.fpc ≠ .none)
+    (hs : stepM s .ok = some s') :
+    ∃ s1, s' = mAddF s1 ∧ s1.cqBuf = s.cqBuf ++ [.call i (s.taskOf.getD i 0)] := by
+  unfold stepM at hs; simp only [hpc, acq_map] at hs
+  simp only [hf, if_false] at hs
+  split at hs
+  · cases hs; exact ⟨_, rfl, rfl⟩
+  · cases hs
+
 /-- Routing: a worker answers with the work id of the call item it received … -/
 theorem C03_worker_answers_own_id (s s1 s2 : St) (p : Pid) (w : Wid) (e b : Bool)
     (hpc : s.w p = .rAcq w e b) (h1 : stepW s p .ok = some s1) (h2 : stepW s1 p .ok = some s2) :
